@@ -7,12 +7,14 @@ Implementation functions driven (real code from $VERIF_REPO/src):
   ko.KeyObjectSelection, ko.KeyObjectSelectionDocument, resolve_reference.
 Model: coq/theories/C15_Model.v; theorems: C15_Props.v.
 
-A case is JSON: content trees are nested lists [vt, tag, rel, ref|None, kids]
-(vt index into VTS, tag = code value of the concept name, rel index into RELS,
-ref = [instance no, class no]); evidence records are [instance no, class no,
-study no, series no].  Numbers are mapped to UIDs by uid_of/cls_of and back.
+A case is JSON: content trees are nested lists [vt, tag, rel, ref|None, kids] or
+[vt, tag, rel, ref|None, kids, opts] (vt index into VTS, tag = code value of the concept
+name, rel index into RELS, ref = [instance no, class no], opts = [[key, [values]]..] in key
+order = the OPTIONAL attributes the item carries, see OPT_KEYS); evidence records are
+[instance no, class no, study no, series no].  Numbers are mapped to UIDs by uid_of/cls_of and back.
 """
 import copy
+import datetime
 import io
 import os
 import sys
@@ -29,8 +31,10 @@ ORACLE_PREMISES = [
     'W1: pydicom save_as + dcmread return a dataset equal to the one written (the written file is modelled '
     'as the document value itself); exercised by the roundtrip cases, not proved',
     'SOPClass.__init__, ContentItem._from_dataset_derived / ContentSequence.from_sequence accept every '
-    'well-formed content tree (named items, non-root items with a relationship type) and keep it unchanged '
-    '(deep copy modelled as value copy); exercised by dataset equality in every doc case',
+    'well-formed content tree (named items, non-root items with a relationship type) and keep it unchanged, '
+    'every optional attribute of every item included (deep copy + per-value-type from_dataset conversion '
+    'modelled as value copy); exercised by dataset equality and by decoding every optional attribute '
+    'in every doc / roundtrip / from_dataset case (15 value types x their constructor options)',
 ]
 MODELLED = ('sr.utils.find_content_items / _create_references / collect_evidence; sr.sop._SR.__init__ guard order '
             '(evidence, transfer syntax, verification details, content sequence length, root item checks, '
@@ -39,13 +43,21 @@ MODELLED = ('sr.utils.find_content_items / _create_references / collect_evidence
             'items, KeyObjectSelectionDocument.__init__, resolve_reference; sr.content.ReferencedSegment.from_segmentation '
             'and ReferencedSegmentationFrame.from_segmentation (on an abstraction of the segmentation: per-frame segment '
             'number + derivation/source sequences + header ReferencedSeriesSequence).  Not modelled: unnamed IMAGE items '
-            '(find_content_items needs ConceptNameCodeSequence), TID 1500 MeasurementReport parsing, patient/study '
-            'attribute copying.')
+            '(find_content_items needs ConceptNameCodeSequence), patient/study attribute copying.  _SR.from_dataset '
+            'is modelled with its root rebuild (value type, name, children, continuity, template) and the dispatch '
+            'on template 1500 (MeasurementReport vs ContentSequence as the type of .content); the structure of real '
+            'TID 1500 reports is exercised through the template classes (kind tid1500, oracle only).')
 STRATA = ['find', 'collect', 'collect_err', 'doc', 'doc_err', 'roundtrip', 'from_dataset', 'ko', 'ko_err',
-          'ko_srread', 'segref', 'segframe', 'seg_real']
+          'ko_srread', 'segref', 'segframe', 'seg_real', 'tid1500']
 NOT_EXECUTED = []
-RULE = ('trees: depth <= 4, fan-out <= 3, 9 value types, children below any value type, references drawn from a '
-        'pool of <= 8 instances with repeats; evidence: pool over <= 3 studies x <= 3 series, supplied = '
+RULE = ('trees: depth <= 4, fan-out <= 3, 15 value types, children below any value type, references drawn from a '
+        'pool of <= 8 instances with repeats; optional attributes of items (document kinds): root and nested container '
+        'template (none / 1500 / other) and continuity, NUM qualifier and integer value, IMAGE frame and segment numbers, '
+        'SCOORD pixel origin interpretation / fiducial / multi-point graphic, SCOORD3D fiducial / multi-point, TCOORD '
+        'positions / offsets / date-times, WAVEFORM channels; parsing through srread(bytes), Class.from_dataset(document) '
+        'and Class.from_dataset(pydicom.dcmread(bytes)) with copy True/False; real TID 1500 reports built with the '
+        'template classes (measurements with / without qualifier, method, derivation, finding sites, source images, '
+        'qualitative evaluations, planar ROI groups; oracle only); evidence: pool over <= 3 studies x <= 3 series, supplied = '
         'exact / superset / strict subset / duplicates / conflicting duplicate, shuffled; classes x record_evidence '
         'x completion/verification/final flags x previous versions; in-memory, written+srread, from_dataset of '
         'every class on every class; malformed stream violates each guard once. segmentation references: synthetic '
@@ -55,7 +67,19 @@ RULE = ('trees: depth <= 4, fan-out <= 3, 9 value types, children below any valu
         'not; plus real highdicom Segmentations of CT series and multi-frame CT (oracle only). non-trivial = at least one '
         'reference below depth 1 or >= 2 evidence groups or a refusal; distinct by case hash')
 
-VTS = ['CONTAINER', 'TEXT', 'CODE', 'NUM', 'IMAGE', 'COMPOSITE', 'SCOORD', 'SCOORD3D', 'UIDREF']
+VTS = ['CONTAINER', 'TEXT', 'CODE', 'NUM', 'IMAGE', 'COMPOSITE', 'SCOORD', 'SCOORD3D', 'UIDREF',
+       'DATE', 'TIME', 'DATETIME', 'PNAME', 'TCOORD', 'WAVEFORM']
+# optional attributes of a content item (the 6th element of a tree node): key -> meaning of the values
+OPT_KEYS = {
+    1: 'CONTAINER template_id [identifier]', 2: 'CONTAINER is_content_continuous=False []',
+    3: 'NUM qualifier [code value]', 4: 'NUM integer value [value] (no FloatingPointValue)',
+    5: 'IMAGE referenced_frame_numbers [..]', 6: 'IMAGE referenced_segment_numbers [..]',
+    7: 'SCOORD pixel_origin_interpretation [0 FRAME | 1 VOLUME]', 8: 'SCOORD/SCOORD3D fiducial_uid [no]',
+    9: 'SCOORD/SCOORD3D POLYLINE with [n] points instead of POINT',
+    10: 'TCOORD referenced_sample_positions [..] (default [1])', 11: 'TCOORD referenced_time_offsets [..]',
+    12: 'TCOORD referenced_date_time [seconds..]', 13: 'WAVEFORM referenced_waveform_channels [w, c, ..]',
+}
+TCOORD, WAVEFORM = 13, 14
 RELS = [None, 'CONTAINS', 'HAS PROPERTIES', 'INFERRED FROM', 'SELECTED FROM']
 CLASSES = ['1.2.840.10008.5.1.4.1.1.2', '1.2.840.10008.5.1.4.1.1.4', '1.2.840.10008.5.1.4.1.1.88.33',
            '1.2.840.10008.5.1.4.1.1.66.4']
@@ -66,6 +90,76 @@ COQ_CLASSES = ['Enhanced', 'Comprehensive', 'Comprehensive3D']
 PFX = '1.2.826.0.1.3680043.8.498.'
 SCHEME = '99VERIF'
 IMAGE, COMPOSITE, SCOORD3D = 4, 5, 7
+
+
+def opts_of(t):
+    return t[5] if len(t) > 5 else []
+
+
+def canon(t):
+    """tree with every node in the 6-element form"""
+    return [t[0], t[1], t[2], t[3], [canon(k) for k in t[4]], [[k, list(v)] for k, v in opts_of(t)]]
+
+
+def opt_get(t, key):
+    for k, v in opts_of(t):
+        if k == key:
+            return v
+    return None
+
+
+def gen_opts(rng, vt, ref, root=False):
+    """optional constructor arguments for an item of value type vt"""
+    o = []
+    if vt == 0:
+        r = rng.random()
+        if root:
+            if r < 0.3:
+                o.append([1, [1500]])
+            elif r < 0.7:
+                o.append([1, [rng.choice([2000, 1410, 2010, 1600, 1501, 300, 15000, 150])]])
+        elif r < 0.3:
+            o.append([1, [rng.choice([1500, 1501, 1410, 1411, 1600, 300])]])
+        if rng.random() < 0.3:
+            o.append([2, []])
+    elif vt == 3:
+        if rng.random() < 0.5:
+            o.append([3, [rng.choice([114000, 114006, 114007, 114009])]])
+        if rng.random() < 0.3:
+            o.append([4, [rng.choice([0, 1, -3, 12, 300, 65536])]])
+    elif vt == IMAGE:
+        if rng.random() < 0.3:
+            o.append([5, sorted(rng.sample(range(1, 9), rng.randint(1, 3)))])
+        if ref is not None and ref[1] == 3 and rng.random() < 0.5:
+            o.append([6, sorted(rng.sample(range(1, 5), rng.randint(1, 2)))])
+    elif vt == 6:
+        if rng.random() < 0.3:
+            o.append([7, [rng.randint(0, 1)]])
+        if rng.random() < 0.25:
+            o.append([8, [rng.randint(1, 9)]])
+        if rng.random() < 0.3:
+            o.append([9, [rng.randint(2, 4)]])
+    elif vt == SCOORD3D:
+        if rng.random() < 0.3:
+            o.append([8, [rng.randint(1, 9)]])
+        if rng.random() < 0.3:
+            o.append([9, [rng.randint(2, 4)]])
+    elif vt == TCOORD:
+        r = rng.random()
+        if r < 0.25:
+            o.append([10, sorted(rng.sample(range(2, 9), rng.randint(1, 3)))])
+        elif r < 0.5:
+            o.append([11, [rng.randint(0, 50) for _ in range(rng.randint(1, 3))]])
+        elif r < 0.75:
+            o.append([12, sorted(rng.sample(range(0, 59), rng.randint(1, 2)))])
+    elif vt == WAVEFORM:
+        if rng.random() < 0.4:
+            o.append([13, rng.choice([[1, 1], [1, 2, 2, 1], [3, 4]])])
+    return o
+
+
+def clear_opts(node):
+    del node[5:]
 
 
 def uid_of(n):
@@ -87,9 +181,18 @@ def num_of(u):
 # --------------------------------------------------------------------------
 # generators
 # --------------------------------------------------------------------------
-def gen_tree(rng, pool, max_depth=4, p3d=0.08, raw=False):
-    """root item + descendants; `pool` = [(instance no, class no)] to reference."""
+def gen_tree(rng, pool, max_depth=4, p3d=0.08, raw=False, rich=False):
+    """root item + descendants; `pool` = [(instance no, class no)] to reference.  rich: items carry optional
+    constructor arguments (gen_opts)."""
     def kid(depth):
+        node = kid0(depth)
+        if rich and rng.random() < 0.85:
+            o = gen_opts(rng, node[0], node[3])
+            if o:
+                node.append(o)
+        return node
+
+    def kid0(depth):
         r = rng.random()
         rel = rng.randint(1, 4)
         if raw and rng.random() < 0.12:
@@ -105,7 +208,11 @@ def gen_tree(rng, pool, max_depth=4, p3d=0.08, raw=False):
             return [COMPOSITE, tag, rel, [u, c], below(depth)]
         if r < 0.62 + p3d:
             return [SCOORD3D, tag, rel, None, below(depth)]
-        t = rng.choice([1, 2, 3, 6, 8])
+        t = rng.choice([1, 2, 3, 3, 3, 3, 6, 6, 8, 9, 10, 11, 12, TCOORD, WAVEFORM])
+        if t == WAVEFORM:
+            # a waveform item names an instance too, but is neither an image nor a composite reference
+            u, c = rng.choice(pool) if pool and rng.random() < 0.7 else (rng.randint(30, 33), 1)
+            return [t, tag, rel, [u, c], below(depth)]
         return [t, tag, rel, None, below(depth)]
 
     def below(depth):
@@ -120,7 +227,12 @@ def gen_tree(rng, pool, max_depth=4, p3d=0.08, raw=False):
     ks = kids(1)
     if not ks and rng.random() < 0.8:
         ks = [kid(1)]
-    return [0, rng.randint(1, 6), 0, None, ks]
+    root = [0, rng.randint(1, 6), 0, None, ks]
+    if rich:
+        o = gen_opts(rng, 0, None, root=True)
+        if o:
+            root.append(o)
+    return root
 
 
 def walk(t, depth=0):
@@ -204,7 +316,7 @@ def gen_doc(rng, kind, force_ok=False):
     refpool = [(r[0], r[1]) for r in pool]
     if rng.random() < 0.15:
         refpool.append((77, 0))            # a reference nobody can supply evidence for
-    tree = gen_tree(rng, refpool)
+    tree = gen_tree(rng, refpool, rich=True)
     mode = rng.choice(MODES[:-1] if force_ok else MODES)
     c = dict(gen_doc_args(rng), kind=kind, tree=tree, evidence=gen_evidence(rng, pool, tree, mode), mode=mode)
     if force_ok:
@@ -217,6 +329,7 @@ def tree_strip_unknown(t):
     for k, _ in walk(t):
         if k[3] is not None and k[3][0] == 77:
             k[0], k[3] = 1, None
+            clear_opts(k)
 
 
 def strip_3d(t):
@@ -247,6 +360,7 @@ def gen_doc_err(rng):
         c['tree'][2] = 1
     elif g == 'root_text':
         c['tree'][0] = 1
+        clear_opts(c['tree'])
     elif g == 'root_no_cs':
         c['tree'][4] = []
         c['root_cs'] = False
@@ -265,6 +379,7 @@ def gen_doc_err(rng):
         # verification details missing AND root is not a container: the earlier guard decides the class
         c['verified'], c['observer'] = True, None
         c['tree'][0] = 1
+        clear_opts(c['tree'])
     return c
 
 
@@ -451,6 +566,41 @@ def gen_seg_real(rng):
             'pick': rng.random(), 'reverse': rng.random() < 0.5}
 
 
+# ---- real TID 1500 measurement reports built with the template classes ---------------------
+M_NAMES = [('410668003', 'SCT', 'Length'), ('118565006', 'SCT', 'Volume'), ('42798000', 'SCT', 'Area'),
+           ('81827009', 'SCT', 'Diameter')]
+M_QUAL = [('114000', 'DCM', 'Not a number'), ('114006', 'DCM', 'Measurement failure'),
+          ('114007', 'DCM', 'Measurement not attempted'), ('114009', 'DCM', 'Value out of range')]
+
+
+def gen_tid1500(rng):
+    pool = gen_pool(rng)
+
+    def meas():
+        return {'name': rng.randrange(len(M_NAMES)), 'value': rng.choice([rng.randint(0, 400), rng.randint(0, 4000) / 8]),
+                'qualifier': rng.randrange(len(M_QUAL)) if rng.random() < 0.5 else None,
+                'method': rng.random() < 0.3, 'derivation': rng.random() < 0.3, 'site': rng.random() < 0.3,
+                'tracking': rng.random() < 0.2,
+                'image': rng.randrange(len(pool)) if rng.random() < 0.4 else None,
+                'frames': rng.random() < 0.3}
+    groups = []
+    for _ in range(rng.randint(1, 3)):
+        groups.append({'type': rng.choice(['plain', 'plain', 'planar']), 'meas': [meas() for _ in range(rng.randint(0, 3))],
+                       'evals': rng.randint(0, 2), 'source': rng.randrange(len(pool)),
+                       'finding_type': rng.random() < 0.4, 'session': rng.random() < 0.3,
+                       'pixel_origin': rng.choice([None, 'FRAME', 'VOLUME'])})
+    if not any(m['qualifier'] is not None for g in groups for m in g['meas']) and rng.random() < 0.7:
+        groups[0]['meas'].append(dict(meas(), qualifier=rng.randrange(len(M_QUAL))))
+    ev = [list(r) for r in pool]
+    if rng.random() < 0.3:
+        ev.insert(rng.randrange(len(ev) + 1), list(rng.choice(ev)))
+    rng.shuffle(ev)
+    return {'kind': 'tid1500', 'cls': rng.randrange(3), 'groups': groups, 'pool': pool, 'evidence': ev,
+            'observer': rng.choice(['person', 'device', 'both']), 'record': rng.random() < 0.6,
+            'title': rng.random() < 0.5, 'entry': rng.choice(['srread', 'dcmread', 'document']),
+            'copy': rng.random() < 0.6}
+
+
 def gen_cases(rng, tier):
     n = {'quick': 1, 'thorough': 20, 'search': 8}[tier]
     cases = []
@@ -470,6 +620,8 @@ def gen_cases(rng, tier):
         c = gen_doc(rng, 'from_dataset', force_ok=True)
         strip_3d(c['tree'])
         c['target'] = rng.randrange(3)
+        c['via'] = rng.choice(['document', 'dcmread', 'dcmread'])
+        c['copy'] = rng.random() < 0.6
         cases.append(c)
     for _ in range(40 * n):
         cases.append(gen_ko(rng))
@@ -485,6 +637,8 @@ def gen_cases(rng, tier):
         cases.append(gen_segframe(rng))
     for _ in range(30 * n):
         cases.append(gen_seg_real(rng))
+    for _ in range(40 * n):
+        cases.append(gen_tid1500(rng))
     return cases
 
 
@@ -497,31 +651,68 @@ def _name(tag):
 
 
 def build_item(t, root=False):
-    """Real highdicom content items for a tree."""
+    """Real highdicom content items for a tree, through the constructors of the item classes."""
     import numpy as np
     from highdicom import sr
-    vt, tag, rel, ref, kids = t
+    vt, tag, rel, ref, kids = t[:5]
+    o = dict((k, v) for k, v in opts_of(t))
     r = RELS[rel]
     n = _name(tag)
+
+    def points(dim):
+        m = o[9][0] if 9 in o else 1
+        return np.array([[float(i + 1), float(tag)] + [2.0] * (dim - 2) for i in range(m)])
     if vt == 0:
-        it = sr.ContainerContentItem(n, relationship_type=r)
+        it = sr.ContainerContentItem(n, is_content_continuous=2 not in o,
+                                     template_id=str(o[1][0]) if 1 in o else None, relationship_type=r)
     elif vt == 1:
         it = sr.TextContentItem(n, f'text {tag}', r)
     elif vt == 2:
         it = sr.CodeContentItem(n, sr.CodedConcept(str(tag + 100), SCHEME, 'v'), r)
     elif vt == 3:
-        it = sr.NumContentItem(n, tag + 0.5, sr.CodedConcept('mm', 'UCUM', 'mm'), relationship_type=r)
+        it = sr.NumContentItem(n, o[4][0] if 4 in o else tag + 0.5, sr.CodedConcept('mm', 'UCUM', 'mm'),
+                               qualifier=sr.CodedConcept(str(o[3][0]), 'DCM', f'q{o[3][0]}') if 3 in o else None,
+                               relationship_type=r)
     elif vt == IMAGE:
-        it = sr.ImageContentItem(n, CLASSES[ref[1]], uid_of(ref[0]), relationship_type=r)
+        def one(v):
+            return None if v is None else (v[0] if len(v) == 1 else list(v))
+        it = sr.ImageContentItem(n, CLASSES[ref[1]], uid_of(ref[0]), referenced_frame_numbers=one(o.get(5)),
+                                 referenced_segment_numbers=one(o.get(6)), relationship_type=r)
     elif vt == COMPOSITE:
         it = sr.CompositeContentItem(n, CLASSES[ref[1]], uid_of(ref[0]), relationship_type=r)
     elif vt == 6:
-        it = sr.ScoordContentItem(n, 'POINT', np.array([[1.0, float(tag)]]), relationship_type=r)
+        it = sr.ScoordContentItem(n, 'POLYLINE' if 9 in o else 'POINT', points(2),
+                                  pixel_origin_interpretation=['FRAME', 'VOLUME'][o[7][0]] if 7 in o else None,
+                                  fiducial_uid=PFX + f'5.{o[8][0]}' if 8 in o else None, relationship_type=r)
     elif vt == SCOORD3D:
-        it = sr.Scoord3DContentItem(n, 'POINT', np.array([[1.0, 2.0, float(tag)]]),
-                                    frame_of_reference_uid=PFX + '9.1', relationship_type=r)
+        it = sr.Scoord3DContentItem(n, 'POLYLINE' if 9 in o else 'POINT', points(3),
+                                    frame_of_reference_uid=PFX + '9.1',
+                                    fiducial_uid=PFX + f'5.{o[8][0]}' if 8 in o else None, relationship_type=r)
     elif vt == 8:
         it = sr.UIDRefContentItem(n, PFX + f'8.{tag}', r)
+    elif vt == 9:
+        it = sr.DateContentItem(n, datetime.date(2020, 1, tag), r)
+    elif vt == 10:
+        it = sr.TimeContentItem(n, datetime.time(10, tag, 0), r)
+    elif vt == 11:
+        it = sr.DateTimeContentItem(n, datetime.datetime(2020, 1, tag, 10, 0, 0), r)
+    elif vt == 12:
+        it = sr.PnameContentItem(n, f'Doe^J{tag}', r)
+    elif vt == TCOORD:
+        kw = {}
+        if 11 in o:
+            kw['referenced_time_offsets'] = [float(x) + 0.5 for x in o[11]]
+        elif 12 in o:
+            kw['referenced_date_time'] = [datetime.datetime(2020, 1, 1, 10, 0, x) for x in o[12]]
+        else:
+            kw['referenced_sample_positions'] = list(o.get(10, [1]))
+        it = sr.TcoordContentItem(n, 'POINT' if sum(len(v) for v in kw.values()) == 1 else 'MULTIPOINT',
+                                  relationship_type=r, **kw)
+    elif vt == WAVEFORM:
+        ch = o.get(13)
+        it = sr.WaveformContentItem(n, CLASSES[ref[1]], uid_of(ref[0]),
+                                    referenced_waveform_channels=None if ch is None else
+                                    [(ch[i], ch[i + 1]) for i in range(0, len(ch), 2)], relationship_type=r)
     else:
         raise ValueError(vt)
     if kids or tag % 2 == 0 or root:
@@ -532,9 +723,11 @@ def build_item(t, root=False):
 def build_raw(t, root=False, has_cs=True):
     """Plain pydicom datasets for a tree (find / collect kinds)."""
     from pydicom import Dataset
-    vt, tag, rel, ref, kids = t
+    vt, tag, rel, ref, kids = t[:5]
     ds = Dataset()
     ds.ValueType = VTS[vt]
+    if vt == 0:
+        ds.ContinuityOfContent = 'CONTINUOUS'
     cn = Dataset()
     cn.CodeValue, cn.CodingSchemeDesignator, cn.CodeMeaning = str(tag), SCHEME, f'm{tag}'
     ds.ConceptNameCodeSequence = [cn]
@@ -552,6 +745,58 @@ def build_raw(t, root=False, has_cs=True):
     return ds
 
 
+def _num(v):
+    """int of a digit string, else the raw string (a value that should not be there stays visible)"""
+    v = str(v)
+    return int(v) if v.lstrip('-').isdigit() else v
+
+
+def _ints(v):
+    from pydicom.multival import MultiValue
+    return [_num(x) for x in v] if isinstance(v, (MultiValue, list)) else [_num(v)]
+
+
+def opts_from(ds):
+    """optional attributes of one content item dataset, read with plain pydicom (whatever its value type)"""
+    o = []
+    if 'ContentTemplateSequence' in ds:
+        ts = ds.ContentTemplateSequence
+        o.append([1, [_num(x.get('TemplateIdentifier')) for x in ts] +
+                  [str(x.get('MappingResource')) for x in ts if x.get('MappingResource') != 'DCMR']])
+    if ds.get('ValueType') == 'CONTAINER' or 'ContinuityOfContent' in ds:
+        cc = ds.get('ContinuityOfContent')
+        if cc != 'CONTINUOUS':
+            o.append([2, [] if cc == 'SEPARATE' else [str(cc)]])
+    if 'NumericValueQualifierCodeSequence' in ds:
+        o.append([3, [_num(x.get('CodeValue')) for x in ds.NumericValueQualifierCodeSequence]])
+    if 'MeasuredValueSequence' in ds and len(ds.MeasuredValueSequence) == 1:
+        mv = ds.MeasuredValueSequence[0]
+        if 'FloatingPointValue' not in mv:
+            o.append([4, [_num(mv.get('NumericValue'))]])
+    rs = ds.ReferencedSOPSequence[0] if 'ReferencedSOPSequence' in ds and len(ds.ReferencedSOPSequence) else {}
+    if 'ReferencedFrameNumber' in rs:
+        o.append([5, _ints(rs.ReferencedFrameNumber)])
+    if 'ReferencedSegmentNumber' in rs:
+        o.append([6, _ints(rs.ReferencedSegmentNumber)])
+    if 'PixelOriginInterpretation' in ds:
+        po = str(ds.PixelOriginInterpretation)
+        o.append([7, [['FRAME', 'VOLUME'].index(po) if po in ('FRAME', 'VOLUME') else po]])
+    if 'FiducialUID' in ds:
+        o.append([8, [_suffix(ds.FiducialUID, PFX + '5.')]])
+    if 'GraphicType' in ds and ds.GraphicType != 'POINT':
+        dim = 3 if ds.ValueType == 'SCOORD3D' else 2
+        o.append([9, [len(ds.GraphicData) // dim] + ([] if ds.GraphicType == 'POLYLINE' else [str(ds.GraphicType)])])
+    if 'ReferencedSamplePositions' in ds and _ints(ds.ReferencedSamplePositions) != [1]:
+        o.append([10, _ints(ds.ReferencedSamplePositions)])
+    if 'ReferencedTimeOffsets' in ds:
+        o.append([11, [_num(str(x)[:-2]) if str(x).endswith('.5') else str(x) for x in _ints(ds.ReferencedTimeOffsets)]])
+    if 'ReferencedDateTime' in ds:
+        o.append([12, [_suffix(str(x)[:14], '202001011000') for x in _ints(ds.ReferencedDateTime)]])
+    if 'ReferencedWaveformChannels' in rs:
+        o.append([13, _ints(rs.ReferencedWaveformChannels)])
+    return o
+
+
 def tree_of(ds):
     """Canonical tree of a dataset that is (or carries at top level) a content item."""
     rt = ds.get('RelationshipType', None)
@@ -560,7 +805,61 @@ def tree_of(ds):
         r = ds.ReferencedSOPSequence[0]
         ref = [num_of(r.ReferencedSOPInstanceUID), CLASSES.index(str(r.ReferencedSOPClassUID))]
     return [VTS.index(ds.ValueType), int(ds.ConceptNameCodeSequence[0].CodeValue), RELS.index(rt), ref,
-            [tree_of(k) for k in ds.get('ContentSequence', [])]]
+            [tree_of(k) for k in ds.get('ContentSequence', [])], opts_from(ds)]
+
+
+# attributes of the document dataset that belong to the root content item
+ROOT_KEYWORDS = ('ValueType', 'ConceptNameCodeSequence', 'ContinuityOfContent', 'ContentTemplateSequence',
+                 'ContentSequence')
+
+
+def _veq(x, y):
+    """element values equal, up to the typed / string representation pydicom chooses for DA, TM, DT, DS, IS"""
+    from pydicom.multival import MultiValue
+    try:
+        if x == y:
+            return True
+    except Exception:
+        pass
+    lx = list(x) if isinstance(x, (MultiValue, list, tuple)) else [x]
+    ly = list(y) if isinstance(y, (MultiValue, list, tuple)) else [y]
+    return len(lx) == len(ly) and all(str(p) == str(q) for p, q in zip(lx, ly))
+
+
+def same(a, b):
+    return ds_diff(a, b) is None
+
+
+def ds_diff(a, b, path=''):
+    """first difference between two datasets as a readable path (None if equal element by element; this is
+    the dataset comparison used for trees that went through a file: pydicom's own == distinguishes the typed
+    value a constructor stored from the string a reader returns)"""
+    tags = sorted(set(a.keys()) | set(b.keys()))
+    for tg in tags:
+        if tg not in a or tg not in b:
+            from pydicom.datadict import keyword_for_tag
+            return f"{path}{keyword_for_tag(tg) or tg}: {'missing' if tg not in a else 'unexpected'}"
+        ea, eb = a[tg], b[tg]
+        name = ea.keyword or str(tg)
+        if ea.VR == 'SQ' or eb.VR == 'SQ':
+            if ea.VR != eb.VR or len(ea.value) != len(eb.value):
+                return f'{path}{name}: {len(ea.value)} item(s) vs {len(eb.value)}'
+            for i, (x, y) in enumerate(zip(ea.value, eb.value)):
+                d = ds_diff(x, y, f'{path}{name}[{i}].')
+                if d:
+                    return d
+        elif ea.VR != eb.VR or not _veq(ea.value, eb.value):
+            return f'{path}{name}: {ea.VR} {ea.value!r} vs {eb.VR} {eb.value!r}'
+    return None
+
+
+def root_part(doc):
+    from pydicom import Dataset
+    r = Dataset()
+    for kw in ROOT_KEYWORDS:
+        if kw in doc:
+            r[kw] = doc[kw]
+    return r
 
 
 _EVD_CACHE = {}
@@ -612,11 +911,16 @@ def _suffix(v, prefix):
 def observe(doc, snapshot):
     """Property-level observables of a document object."""
     tree = tree_of(doc.content[0])
-    if snapshot is not None:
-        if doc.content[0] != snapshot:
-            tree = 'content item of the document is not equal (dataset comparison) to the content given'
+    if snapshot is not None and tree == tree_of(snapshot):
+        # the canonical trees agree: look at every attribute (values, units, coordinates, ...) as well
+        if not same(doc.content[0], snapshot):
+            tree = ('content item of the document is not equal (dataset comparison) to the content given: '
+                    f'{ds_diff(doc.content[0], snapshot)}')
         elif tree_of(doc) != tree:
             tree = 'top-level content attributes of the document differ from .content'
+        elif ds_diff(root_part(doc), root_part(snapshot)) is not None:
+            tree = ('top-level content attributes of the document differ from the content given: '
+                    f'{ds_diff(root_part(doc), root_part(snapshot))}')
     vos = doc.get('VerifyingObserverSequence')
     obs = None
     if vos is not None:
@@ -671,11 +975,15 @@ def observe_built(doc, snapshot, root, parsed=None):
         return 'the content tree given to the constructor was modified by it'
     obs = observe(doc if parsed is None else parsed, snapshot)
     # poke the caller's tree: the document's .content must not follow
-    root.ContinuityOfContent = 'CONTINUOUS'
+    before = copy.deepcopy(doc.content[0])
+    root.ContinuityOfContent = 'SEPARATE' if root.get('ContinuityOfContent') == 'CONTINUOUS' else 'CONTINUOUS'
     for k in root.get('ContentSequence', []):
         k.ObservationUID = PFX + '6.6'
-    if doc.content[0] != snapshot:
+    if doc.content[0] != before:
         return '.content of the document aliases the tree given by the caller'
+    if parsed is not None and not isinstance(obs, str):
+        # which parser the root template selected: .content is a MeasurementReport or a plain ContentSequence
+        return [type(parsed.content).__name__ == 'MeasurementReport', obs]
     return obs
 
 
@@ -770,6 +1078,142 @@ def build_real_seg(c):
     return seg, [str(x.SOPInstanceUID) for x in sources]
 
 
+def build_report(c):
+    """hd.sr.MeasurementReport for a tid1500 case"""
+    from highdicom import sr
+    from pydicom.sr.codedict import codes
+
+    def cc(t):
+        return sr.CodedConcept(*t)
+    pool = c['pool']
+
+    def measurement(m):
+        kw = {}
+        if m['qualifier'] is not None:
+            kw['qualifier'] = cc(M_QUAL[m['qualifier']])
+        if m['method']:
+            kw['method'] = codes.SCT.AreaOfDefinedRegion
+        if m['derivation']:
+            kw['derivation'] = codes.SCT.Maximum
+        if m['site']:
+            kw['finding_sites'] = [sr.FindingSite(anatomic_location=codes.SCT.Liver)]
+        if m['tracking']:
+            kw['tracking_identifier'] = sr.TrackingIdentifier(uid=PFX + '4.9', identifier='m')
+        if m['image'] is not None:
+            u, cl = pool[m['image']][:2]
+            kw['referenced_images'] = [sr.SourceImageForMeasurement(
+                CLASSES[cl], uid_of(u), referenced_frame_numbers=[1, 2] if m['frames'] else None)]
+        return sr.Measurement(name=cc(M_NAMES[m['name']]), value=m['value'], unit=codes.UCUM.Millimeter, **kw)
+    groups = []
+    for i, g in enumerate(c['groups']):
+        kw = dict(tracking_identifier=sr.TrackingIdentifier(uid=PFX + f'4.{i + 1}', identifier=f'g{i}'),
+                  measurements=[measurement(m) for m in g['meas']] or None,
+                  qualitative_evaluations=[sr.QualitativeEvaluation(
+                      name=sr.CodedConcept(str(200 + j), SCHEME, f'e{j}'), value=sr.CodedConcept(str(300 + j), SCHEME, 'v'))
+                      for j in range(g['evals'])] or None)
+        if g['finding_type']:
+            kw['finding_type'] = codes.SCT.Neoplasm
+        if g['session']:
+            kw['session'] = f's{i}'
+        u, cl = pool[g['source']][:2]
+        if g['type'] == 'planar':
+            import numpy as np
+            region = sr.ImageRegion('POLYLINE', np.array([[1.0, 1.0], [4.0, 1.0], [4.0, 5.0], [1.0, 1.0]]),
+                                    source_image=sr.SourceImageForRegion(CLASSES[cl], uid_of(u)),
+                                    pixel_origin_interpretation=g['pixel_origin'])
+            groups.append(sr.PlanarROIMeasurementsAndQualitativeEvaluations(referenced_region=region, **kw))
+        else:
+            groups.append(sr.MeasurementsAndQualitativeEvaluations(
+                source_images=[sr.SourceImageForMeasurementGroup(CLASSES[cl], uid_of(u))], **kw))
+    person = sr.ObserverContext(observer_type=codes.DCM.Person,
+                                observer_identifying_attributes=sr.PersonObserverIdentifyingAttributes(name='Doe^J'))
+    device = sr.ObserverContext(observer_type=codes.DCM.Device,
+                                observer_identifying_attributes=sr.DeviceObserverIdentifyingAttributes(uid=PFX + '4.8'))
+    ctx = sr.ObservationContext(observer_person_context=person if c['observer'] != 'device' else None,
+                                observer_device_context=device if c['observer'] != 'person' else None)
+    return sr.MeasurementReport(observation_context=ctx, procedure_reported=codes.LN.CTUnspecifiedBodyRegion,
+                                imaging_measurements=groups,
+                                title=codes.DCM.ImagingMeasurementReport if c['title'] else None)
+
+
+def walk_ds(ds):
+    """every content item dataset below ds, document order (plain pydicom)"""
+    for k in ds.get('ContentSequence', []):
+        yield k
+        yield from walk_ds(k)
+
+
+def num_items(ds):
+    """[concept code, numeric value, qualifier code | None] of every NUM item below ds"""
+    out = []
+    for k in walk_ds(ds):
+        if k.ValueType == 'NUM':
+            q = k.get('NumericValueQualifierCodeSequence')
+            mv = k.MeasuredValueSequence[0]
+            out.append([str(k.ConceptNameCodeSequence[0].CodeValue), float(mv.NumericValue),
+                        str(mv.MeasurementUnitsCodeSequence[0].CodeValue),
+                        None if q is None else str(q[0].CodeValue)])
+    return out
+
+
+def ref_items(ds):
+    return sorted({num_of(k.ReferencedSOPSequence[0].ReferencedSOPInstanceUID) for k in walk_ds(ds)
+                   if k.ValueType in ('IMAGE', 'COMPOSITE')})
+
+
+def run_tid1500(c):
+    import pydicom
+    from highdicom import sr
+    report = build_report(c)
+    root = report[0]
+    snapshot = copy.deepcopy(root)
+    cls = getattr(sr, SR_CLASSES[c['cls']])
+    doc = catch(lambda: cls(evidence=[evidence_ds(r) for r in c['evidence']], content=report,
+                            series_instance_uid=PFX + '7.1', series_number=3, sop_instance_uid=PFX + '7.2',
+                            instance_number=1, manufacturer='verif', record_evidence=c['record'],
+                            **({'transfer_syntax_uid': TS['explicit']} if c['cls'] == 2 else {})))
+    if isinstance(doc, Err):
+        return doc
+    if root != snapshot:
+        return 'the report given to the constructor was modified by it'
+    views = [['.content of the constructed document', doc.content[0]],
+             ['top-level attributes of the constructed document', root_part(doc)]]
+    bio = io.BytesIO()
+    doc.save_as(bio)
+    bio.seek(0)
+    if c['entry'] == 'srread':
+        back = catch(lambda: sr.srread(bio))
+    elif c['entry'] == 'dcmread':
+        plain = pydicom.dcmread(bio)
+        back = catch(lambda: cls.from_dataset(plain, copy=c['copy']))
+    else:
+        back = catch(lambda: cls.from_dataset(doc, copy=True))
+    if isinstance(back, Err):
+        return back
+    views += [['.content of the parsed document', back.content[0]],
+              ['top-level attributes of the parsed document', root_part(back)]]
+    diffs = []
+    for name, v in views:
+        if not same(v, snapshot) or tree_shape(v) != tree_shape(snapshot):
+            diffs.append(f'{name} differs from the report given: {ds_diff(v, snapshot)}')
+    groups = catch(lambda: [[str(m.name.value), None if m.qualifier is None else str(m.qualifier.value)]
+                            for g in (back.content.get_image_measurement_groups() +
+                                      back.content.get_planar_roi_measurement_groups())
+                            for m in g.get_measurements()])
+    return [diffs, [type(doc.content).__name__, type(back.content).__name__, type(back).__name__],
+            num_items(snapshot), [num_items(v) for _, v in views], ref_items(snapshot),
+            refs_of(doc.get('CurrentRequestedProcedureEvidenceSequence')),
+            refs_of(doc.get('PertinentOtherEvidenceSequence')),
+            refs_of(back.get('CurrentRequestedProcedureEvidenceSequence')),
+            refs_of(back.get('PertinentOtherEvidenceSequence')), groups]
+
+
+def tree_shape(ds):
+    """value types, names, relationship types and optional attributes of a whole tree (plain pydicom)"""
+    return [str(ds.ValueType), str(ds.ConceptNameCodeSequence[0].CodeValue), str(ds.get('RelationshipType')),
+            opts_from(ds), [tree_shape(k) for k in ds.get('ContentSequence', [])]]
+
+
 def run_impl(c):
     import warnings
     warnings.filterwarnings('ignore')
@@ -820,15 +1264,30 @@ def run_impl(c):
         if isinstance(r, Err):
             return r
         doc, snap, root = r
-        before = copy.deepcopy(doc)
-        back = catch(lambda: getattr(sr, SR_CLASSES[c['target']]).from_dataset(doc))
+        via, cp = c.get('via', 'document'), c.get('copy', True)
+        given = doc
+        if via == 'dcmread':
+            # the written bytes, read with plain pydicom
+            import pydicom
+            bio = io.BytesIO()
+            doc.save_as(bio)
+            bio.seek(0)
+            given = pydicom.dcmread(bio)
+        elif not cp:
+            given = copy.deepcopy(doc)
+        before = copy.deepcopy(given)
+        back = catch(lambda: getattr(sr, SR_CLASSES[c['target']]).from_dataset(given, copy=cp))
         if isinstance(back, Err):
             return back
         if type(back).__name__ != SR_CLASSES[c['target']]:
             return 'from_dataset returned a ' + type(back).__name__
-        if doc != before:
+        if cp and given != before:
             return 'from_dataset(copy=True) changed the dataset it was given'
+        if not cp and back is not given:
+            return 'from_dataset(copy=False) did not convert the dataset it was given in place'
         return observe_built(doc, snap, root, parsed=back)
+    if k == 'tid1500':
+        return run_tid1500(c)
     if k == 'segref':
         ds = build_seg_ds(c['seg'])
         r = catch(lambda: sr.ReferencedSegment.from_segmentation(ds, segment_number=c['sn'], frame_numbers=c['fns']))
@@ -916,9 +1375,10 @@ COQ_VT = VTS
 
 
 def coq_item(t):
-    vt, tag, rel, ref, kids = t
+    vt, tag, rel, ref, kids = t[:5]
     r = 'None' if ref is None else f'(Some ({zlit(ref[0])}, {zlit(ref[1])}))'
-    return f"(Item {COQ_VT[vt]} {zlit(tag)} {zlit(rel)} {r} [{'; '.join(coq_item(k) for k in kids)}])"
+    ats = '[' + '; '.join(f'({zlit(k)}, {coq_zl(v)})' for k, v in opts_of(t)) + ']'
+    return f"(Item {COQ_VT[vt]} {zlit(tag)} {zlit(rel)} {r} {ats} [{'; '.join(coq_item(k) for k in kids)}])"
 
 
 def coq_evd(rs):
@@ -991,7 +1451,7 @@ def coq_term(c):
         fa = c['fa']
         a = 'FNone' if fa is None else (f'(FInt {zlit(fa)})' if isinstance(fa, int) else f'(FList {coq_zl(fa)})')
         return f"(run_segframe {coq_seg(c['seg'])} {a} {coq_optz(c['sn'])})"
-    if k == 'seg_real':
+    if k in ('seg_real', 'tid1500'):
         return None
     refs = '[' + '; '.join(f'({zlit(u)}, {zlit(cl)}, {coq_b(img)})' for u, cl, img in c['refs']) + ']'
     if k in ('ko', 'ko_err'):
@@ -1044,6 +1504,26 @@ def check_partition(evidence, ref, cur, oth, record=True, what=''):
     return None
 
 
+def tree_diff(got, want, path='root'):
+    """first difference between two canonical trees, as a sentence"""
+    names = ['value type', 'concept name', 'relationship', 'referenced instance', None, 'optional attributes']
+    for i in (0, 1, 2, 3, 5):
+        if got[i] != want[i]:
+            extra = ''
+            if i == 5:
+                keys = sorted({k for k, _ in got[5]} ^ {k for k, _ in want[5]} |
+                              {k for k, v in got[5] if [k, v] not in want[5] and k in dict((a, b) for a, b in want[5])})
+                extra = ' (' + '; '.join(OPT_KEYS.get(k, str(k)) for k in keys) + ')'
+            return f'{names[i]} of {path} [{VTS[want[0]]}] is {got[i]}, given {want[i]}{extra}'
+    if len(got[4]) != len(want[4]):
+        return f'{path} has {len(got[4])} children, given {len(want[4])}'
+    for j, (a, b) in enumerate(zip(got[4], want[4])):
+        d = tree_diff(a, b, f'{path}.{j}')
+        if d:
+            return d
+    return None
+
+
 def _tree_has(t, vt):
     return any(k[0] == vt for k, _ in walk(t))
 
@@ -1077,8 +1557,8 @@ def check_doc_obs(c, obs, parsed=False):
         return tree
     if cls != c['cls']:
         return f"document has SOP class {cls}, requested {c['cls']}"
-    if tree != c['tree']:
-        return f'content tree of the document differs from the tree given: {tree} vs {c["tree"]}'
+    if tree != canon(c['tree']):
+        return f'content tree of the document differs from the tree given: {tree_diff(tree, canon(c["tree"]))}'
     m = check_partition(c['evidence'], referenced(c['tree']), cur, oth, c['record'])
     if m:
         return m
@@ -1265,6 +1745,43 @@ def oracle_seg_real(c, out):
     return None
 
 
+def oracle_tid1500(c, out):
+    if isinstance(out, str):
+        return out
+    if isinstance(out, Err):
+        return f'valid measurement report refused: {out}'
+    diffs, kinds, nums_given, nums_views, refs, cur, oth, pcur, poth, groups = out
+    # the report handed over is what the case describes (checked against the case, not against highdicom)
+    want_nums = [[M_NAMES[m['name']][0], float(m['value']), 'mm',
+                  None if m['qualifier'] is None else M_QUAL[m['qualifier']][0]]
+                 for g in c['groups'] for m in g['meas']]
+    if sorted(map(str, nums_given)) != sorted(map(str, want_nums)):
+        return f'harness: report built {nums_given}, case describes {want_nums}'
+    if diffs:
+        return diffs[0]
+    for v in nums_views:
+        if v != nums_given:
+            return f'numeric items (name, value, unit, qualifier) {v}, given {nums_given}'
+    if kinds != ['ContentSequence', 'MeasurementReport', SR_CLASSES[c['cls']]] and \
+            kinds != ['MeasurementReport', 'MeasurementReport', SR_CLASSES[c['cls']]]:
+        return f'.content / parsed .content / parsed document have types {kinds}'
+    want_refs = sorted({c['pool'][g['source']][0] for g in c['groups']} |
+                       {c['pool'][m['image']][0] for g in c['groups'] for m in g['meas'] if m['image'] is not None})
+    if refs != want_refs:
+        return f'harness: report references {refs}, case describes {want_refs}'
+    for what, a, b in (('', cur, oth), ('parsed ', pcur, poth)):
+        m = check_partition(c['evidence'], set(refs), a, b, c['record'], what=what)
+        if m:
+            return m
+    if isinstance(groups, Err):
+        return f'measurement groups of the parsed report cannot be read: {groups}'
+    want = [[M_NAMES[m['name']][0], None if m['qualifier'] is None else M_QUAL[m['qualifier']][0]]
+            for t in ('plain', 'planar') for g in c['groups'] if g['type'] == t for m in g['meas']]
+    if groups != want:
+        return f'measurements (name, qualifier) read from the parsed report {groups}, given {want}'
+    return None
+
+
 def oracle(c, out):
     k = c['kind']
     if k == 'segref':
@@ -1273,6 +1790,8 @@ def oracle(c, out):
         return oracle_segframe(c, out)
     if k == 'seg_real':
         return oracle_seg_real(c, out)
+    if k == 'tid1500':
+        return oracle_tid1500(c, out)
     if k == 'find':
         if not c['has_cs']:
             return None if out == Err('AttributeError') else f'dataset without content sequence gave {out}'
@@ -1283,6 +1802,7 @@ def oracle(c, out):
         want = [x for x, _ in cand
                 if (q['name'] is None or x[1] == q['name']) and (q['vt'] is None or x[0] == q['vt'])
                 and (q['rel'] is None or x[2] == q['rel'])]
+        want = [canon(x) for x in want]
         return None if out == want else f'found {len(out)} items, the tree holds {len(want)} matching ones in order'
     if k in ('collect', 'collect_err'):
         if not c['has_cs']:
@@ -1310,6 +1830,12 @@ def oracle(c, out):
             if out[0] != c['cls']:
                 return f'srread returned class {out[0]} for a class {c["cls"]} document'
             out = out[1]
+        if k in ('roundtrip', 'from_dataset'):
+            report = opt_get(c['tree'], 1) == [1500]
+            if out[0] != report:
+                return (f"root declares template {opt_get(c['tree'], 1)}: .content of the parsed document is "
+                        f"{'a' if out[0] else 'not a'} MeasurementReport")
+            out = out[1]
         return check_doc_obs(c, out)
     if k in ('ko', 'ko_err'):
         ref = {r[0] for r in c['refs']}
@@ -1323,9 +1849,9 @@ def oracle(c, out):
         tree, cur, oth, res = out
         if isinstance(tree, str):
             return tree
-        want_kids = ([[1, 113012, 1, None, []]] if c['descr'] is not None else []) + [
-            [IMAGE if img else COMPOSITE, 260753009, 1, [u, cl], []] for u, cl, img in c['refs']]
-        if tree != [0, 113000, 0, None, want_kids]:
+        want_kids = ([[1, 113012, 1, None, [], []]] if c['descr'] is not None else []) + [
+            [IMAGE if img else COMPOSITE, 260753009, 1, [u, cl], [], []] for u, cl, img in c['refs']]
+        if tree != [0, 113000, 0, None, want_kids, [[1, [2010]]]]:
             return f'key object content {tree}'
         m = check_partition(c['evidence'], ref, cur, oth, record=False, what='KO ')
         if m:
@@ -1350,6 +1876,8 @@ def nontrivial(c, out):
         return c['seg']['nframes'] > 1
     if k == 'seg_real':
         return len(out[0]) > 1
+    if k == 'tid1500':
+        return True
     if k == 'find':
         return len(out) > 0 and any(d > 1 for _, d in walk(c['tree']))
     if k in ('ko', 'ko_srread'):
@@ -1361,11 +1889,14 @@ def nontrivial(c, out):
 def shrink(c):
     if 'tree' in c:
         def variants(t):
+            rest = t[5:]
             for i in range(len(t[4])):
-                yield [t[0], t[1], t[2], t[3], t[4][:i] + t[4][i + 1:]]
-                yield [t[0], t[1], t[2], t[3], t[4][:i] + t[4][i][4] + t[4][i + 1:]]
+                yield [t[0], t[1], t[2], t[3], t[4][:i] + t[4][i + 1:]] + rest
+                yield [t[0], t[1], t[2], t[3], t[4][:i] + t[4][i][4] + t[4][i + 1:]] + rest
                 for v in variants(t[4][i]):
-                    yield [t[0], t[1], t[2], t[3], t[4][:i] + [v] + t[4][i + 1:]]
+                    yield [t[0], t[1], t[2], t[3], t[4][:i] + [v] + t[4][i + 1:]] + rest
+            for j in range(len(opts_of(t))):
+                yield t[:5] + [t[5][:j] + t[5][j + 1:]]
         for v in variants(c['tree']):
             yield dict(c, tree=v)
     if 'seg' in c:
